@@ -196,38 +196,64 @@ def kani_crate(unit_name, lib_rs, deps_toml="", edition="2021"):
 
 
 def parse_kani(out):
-    """per harness: status, checks, failed checks"""
+    """per harness: status, checks, failed checks.  Handles sequential output and the `Thread N:` interleaving of -j."""
     res = {}
+    # split into segments attributed to a harness
+    segs = {}          # harness -> text
+    thread_h = {}      # thread id -> harness
     cur = None
-    blocks = re.split(r"(?=Checking harness )", out)
-    for b in blocks:
-        mm = re.match(r"Checking harness ([^\s.]+(?:\.[^\s.]+)*)\.\.\.", b)
-        if not mm:
+    for line in out.split("\n"):
+        mm = re.match(r"(?:Thread (\d+): )?Checking harness (\S+?)\.\.\.\s*$", line)
+        if mm:
+            h = mm.group(2)
+            segs.setdefault(h, "")
+            if mm.group(1) is not None:
+                thread_h[mm.group(1)] = h
+                cur = None
+            else:
+                cur = h
             continue
-        h = mm.group(1).rstrip(".")
+        mm = re.match(r"Thread (\d+):\s*(.*)$", line)
+        if mm:
+            cur = thread_h.get(mm.group(1))
+            if cur is not None and mm.group(2):
+                segs[cur] += mm.group(2) + "\n"
+            continue
+        if line.startswith("Manual Harness Summary") or line.startswith("Complete - ") or line.startswith("---- stderr"):
+            cur = None
+            continue
+        if cur is not None:
+            segs[cur] += line + "\n"
+    for h, b in segs.items():
         st = "undecided"
         if re.search(r"VERIFICATION:- SUCCESSFUL", b):
             st = "ok"
         elif re.search(r"VERIFICATION:- FAILED", b):
             st = "fail"
+        timed_out = bool(re.search(r"CBMC timed out|CBMC failed|out of memory|Killed", b))
+        if timed_out and not re.search(r"\*\* \d+ of \d+ failed", b):
+            st = "undecided"
         cm = re.search(r"\*\* (\d+) of (\d+) failed", b)
         checks = int(cm.group(2)) if cm else 0
         failed = re.findall(r"Failed Checks: (.*)\n\s*File: \"([^\"]*)\", line (\d+), in (\S+)", b)
         tm = re.search(r"Verification Time: ([0-9.]+)s", b)
-        covers = re.findall(r"\*\* (\d+) of (\d+) cover properties satisfied", b)
-        unsat_cover = re.findall(r"Status: (UNSATISFIABLE|UNREACHABLE)\n\s*Description: \"?(cover[^\n]*)", b)
-        und = bool(re.search(r"unwinding assertion", " ".join(f[0] for f in failed)))
+        und = any("unwinding assertion" in f[0] for f in failed)
         res[h] = {"status": st, "checks": checks, "failed": failed, "time": float(tm.group(1)) if tm else 0.0,
-                  "covers": covers, "raw": b[-6000:], "unwind_fail": und}
+                  "raw": b[-6000:], "unwind_fail": und, "timed_out": timed_out}
     return res
 
 
-def run_kani(unit_name, crate_dir, harnesses=None, timeout=1800, jobs=8, extra=None, playback=False):
-    cmd = ["cargo", "kani", "-Z", "function-contracts", "-Z", "stubbing", "--output-format", "terse", "-j", str(jobs)]
+def run_kani(unit_name, crate_dir, harnesses=None, timeout=1800, jobs=8, extra=None, playback=False, harness_timeout=600):
+    cmd = ["cargo", "kani", "-Z", "function-contracts", "-Z", "stubbing", "-Z", "unstable-options", "--harness-timeout", "%ds" % harness_timeout,
+           "--output-format", "terse"]
+    if not playback:
+        cmd += ["-j", str(jobs)]
     if playback:
         cmd += ["-Z", "concrete-playback", "--concrete-playback=print"]
+    if harnesses:
+        cmd += ["--exact"]
     for h in harnesses or []:
-        cmd += ["--harness", h]
+        cmd += ["--harness", h if "::" in h else "vx_harness::" + h]
     if extra:
         cmd += extra
     env = dict(KANI_ENV, CARGO_TARGET_DIR=os.path.join(BUILD, "kani-target", unit_name))
@@ -239,7 +265,8 @@ def run_kani(unit_name, crate_dir, harnesses=None, timeout=1800, jobs=8, extra=N
         out = (e.stdout or b"").decode() if isinstance(e.stdout, bytes) else (e.stdout or "")
         err = "TIMEOUT"
     wall = time.time() - t0
-    open(os.path.join(crate_dir, "kani.out"), "w").write(out + "\n---- stderr ----\n" + err)
+    os.makedirs(os.path.join(BUILD, "kani-out"), exist_ok=True)
+    open(os.path.join(BUILD, "kani-out", unit_name + (".playback" if playback else "") + ".out"), "w").write(out + "\n---- stderr ----\n" + err)
     res = parse_kani(out)
     meta = {"cmd": " ".join(cmd), "wall_s": round(wall, 2), "crate": crate_dir}
     if not res:
